@@ -1,5 +1,6 @@
 import OsuProofs.EstJacobian
 import OsuProofs.EstRotation
+import OsuProofs.MemRotation
 /-
 C06 — estimators reproduce the input moments; solvers agree; the Jacobian is the derivative of
 the constraint function; output rotates with input.
@@ -175,5 +176,24 @@ theorem approximate_rotates {N : ℕ} [NeZero N] (θ0 Δ : ℝ) (k : Fin N) (a1 
       = Osu.Rot.rotE k (distF (fun j : Fin N => ipOf (initialValue a1 b1 a2 b2)
         (twiddleCol (Osu.Rot.theta θ0 j * Real.pi / 180))) Δ) :=
   approximate_rot θ0 Δ k a1 b1 a2 b2
+
+/-- MEM (Lygre & Krogstad): the un-normalised value of moments rotated by `φ` at direction `θ` is
+the value of the original moments at `θ − φ` (`Φ1 ↦ Φ1 e^{iφ}`, `Φ2 ↦ Φ2 e^{2iφ}`, numerator unchanged) -/
+theorem mem_value_rotates (φ a1 b1 a2 b2 θ : ℝ) :
+    memRawAt (rotMoments φ a1 b1 a2 b2).1 (rotMoments φ a1 b1 a2 b2).2.1 (rotMoments φ a1 b1 a2 b2).2.2.1
+        (rotMoments φ a1 b1 a2 b2).2.2.2 θ = memRawAt a1 b1 a2 b2 (θ - φ) := memRawAt_rot φ a1 b1 a2 b2 θ
+
+/-- MEM as a whole (with its discrete normalisation) rotates with its input on every uniform grid -/
+theorem mem_rotates {N : ℕ} [NeZero N] (θ0 : ℝ) (k : Fin N) (a1 b1 a2 b2 : ℝ) :
+    let φ := (k : ℕ) * Osu.Rot.dθ N * Real.pi / 180
+    let m' := rotMoments φ a1 b1 a2 b2
+    memF (fun j : Fin N => memRawAt m'.1 m'.2.1 m'.2.2.1 m'.2.2.2 (Osu.Rot.theta θ0 j * Real.pi / 180))
+      = Osu.Rot.rotE k (memF (fun j : Fin N => memRawAt a1 b1 a2 b2 (Osu.Rot.theta θ0 j * Real.pi / 180))) :=
+  mem_grid_rot θ0 k a1 b1 a2 b2
+
+/-- the list model `mem` on a grid is that function -/
+theorem mem_model_bridge {N : ℕ} (a1 b1 a2 b2 : ℝ) (θ : Fin N → ℝ) :
+    mem a1 b1 a2 b2 (List.ofFn fun j => (Real.cos (θ j), Real.sin (θ j), Real.cos (2 * θ j), Real.sin (2 * θ j)))
+      = List.ofFn (memF fun j => memRawAt a1 b1 a2 b2 (θ j)) := mem_bridge a1 b1 a2 b2 θ
 
 end Osu.Props.C06
